@@ -6,15 +6,36 @@ import os
 HERE = os.path.dirname(os.path.dirname(os.path.abspath(__file__)))
 ALL = ["C%02d" % i for i in range(1, 21)]
 
-CHECKS = {
-    "C11": dict(
-        technique="TLA+ model (LoggCore) checked exhaustively with TLC; every transition of the state graph replayed on the library; recorded traces validated by TLC against LoggCoreTrace",
-        text="Exhaustive TLC exploration of the per-logger format machine (all mode calls with 0..2 boolean arguments, as Set/With/New option, 3-4 loggers) with OneFormat/Isolation as invariant/action property; every transition of that graph plus seeded random deeper histories are executed on the real library and the recording (getters, probe record shape, tree) is validated by TLC against the same operators.",
-        note="Trusts TLC, the Go toolchain and the harness's classification of a record's shape (first byte '{' / contains ESC[). Probes use WriteThru with a fixed timestamp.",
-        design="6/C11"),
-}
+def load_checks():
+    """One checks/cNN.meta.json per claimed property: {technique, text, note, design, [category], [na_reason]}."""
+    res, na = {}, {}
+    d = os.path.join(HERE, "checks")
+    for f in sorted(os.listdir(d)):
+        if f.endswith(".meta.json"):
+            with open(os.path.join(d, f)) as fh:
+                m = json.load(fh)
+            pid = f.split(".")[0].upper()
+            if m.get("na_reason"):
+                na[pid] = m["na_reason"]
+            else:
+                res[pid] = m
+    return res, na
+
+
+CHECKS, CHECKS_NA = load_checks()
 
 PENDING = "check not built yet; see DESIGN.md section 10 (build order)"
+
+
+def hook_commits():
+    p = os.path.join(HERE, "hooks.json")
+    if os.path.exists(p):
+        with open(p) as fh:
+            return json.load(fh).get("source_commits", [])
+    return []
+
+
+HOOK_COMMITS = hook_commits()
 
 
 def main():
@@ -52,8 +73,6 @@ def main():
     print("MANIFEST.json: %d checks, %d not claimed" % (len(checks), len(na)))
 
 
-CHECKS_NA = {}
-HOOK_COMMITS = []
 
 if __name__ == "__main__":
     main()
